@@ -140,7 +140,7 @@ def check_wrapped(path, shape, sites, tag):
     return viols
 
 
-def eval_grid(F, diagonal, res: Result, methods=METHODS, pairs=None, fev=None):
+def eval_grid(F, diagonal, res: Result, methods=METHODS, pairs=None, fev=None, pre_low=False):
     import networkx as nx
 
     from gemdat.path import optimal_path
@@ -151,7 +151,15 @@ def eval_grid(F, diagonal, res: Result, methods=METHODS, pairs=None, fev=None):
     offs = pathref.offsets(diagonal)
     E = pathref.admissible(F, THR)
     if fev is None:
-        fev = fev_of(F)
+        fev = fev_of(F.copy())
+    if pre_low:
+        # history: a graph with a LOWER threshold was requested from the same volume first
+        case0['pre_low'] = True
+        adm = [v for v in F.ravel() if v < THR]
+        try:
+            fev.free_energy_graph(max_energy_threshold=(min(adm) + max(adm)) / 2 if max(adm) > min(adm) else min(adm) + 1.0, diagonal=diagonal)
+        except Exception as e:  # noqa: BLE001
+            res.violation(f'graph-raise-{type(e).__name__}', case0, f'lower threshold: {e}')
     try:
         G = fev.free_energy_graph(max_energy_threshold=THR, diagonal=diagonal)
     except Exception as e:  # noqa: BLE001
@@ -192,7 +200,7 @@ def eval_grid(F, diagonal, res: Result, methods=METHODS, pairs=None, fev=None):
         own[s]['bottleneck'] = pathref.bottleneck(E, shape, offs, s)
     for (s, t) in pairs:
         for method in methods:
-            case = {'F': F.tolist(), 'diagonal': diagonal, 'start': list(s), 'stop': list(t), 'method': method, 'same_object_before': case0['same_object_before']}
+            case = {'F': F.tolist(), 'diagonal': diagonal, 'start': list(s), 'stop': list(t), 'method': method, 'same_object_before': case0['same_object_before'], 'pre_low': pre_low}
             res.evals += 1
             reach = t in own[s]['sum']
             try:
@@ -357,9 +365,9 @@ def run_shard(shard) -> Result:
                 continue
             # memory layout of the grid: C order, Fortran order, or a transposed view (same values)
             Fl = F if gi % 3 == 0 else (np.asfortranarray(F) if gi % 3 == 1 else np.ascontiguousarray(F.transpose(2, 1, 0)).transpose(2, 1, 0))
-            fev = fev_of(Fl)  # ONE volume object serves both neighbourhood modes (order alternates)
+            fev = fev_of(np.array(Fl, dtype=float, copy=True, order='K'))  # ONE volume object (own memory) serves both neighbourhood modes (order alternates)
             for diagonal in ((True, False) if gi % 2 == 0 else (False, True)):
-                eval_grid(F, diagonal, res, fev=fev)
+                eval_grid(F, diagonal, res, fev=fev, pre_low=(gi % 4 == 1))
         res.sample({'grid_shape': shape, 'energies': F.tolist(), 'pairs': 'all admissible ordered pairs', 'methods': METHODS})
     elif kind == 'family':
         for F in family_grids(shard):
@@ -370,9 +378,9 @@ def run_shard(shard) -> Result:
                 pairs = [(s, t) for s in srcs for t in nodes]
             else:
                 pairs = None
-            fev = fev_of(F)
+            fev = fev_of(np.array(F, dtype=float, copy=True))
             for diagonal in (True, False):
-                eval_grid(F, diagonal, res, pairs=pairs, fev=fev)
+                eval_grid(F, diagonal, res, pairs=pairs, fev=fev, pre_low=True)
         res.sample({'family': shard['fam'], 'grid_shape': shard['shape']})
     elif kind == 'perc':
         shape = tuple(shard['shape'])
@@ -415,8 +423,9 @@ def replay(case):
     if 'dirs' in case:
         eval_percolation(np.array(case['F']), case['dirs'], [tuple(p) for p in case['peaks']], res)
     else:
-        F = np.array(case['F'])
-        fev = fev_of(F)
+        F = np.array(case['F'], dtype=float)
+        fev = fev_of(F.copy())
+        pl = bool(case.get('pre_low', False))
         if case.get('same_object_before', True):
             try:  # the other neighbourhood mode was asked of the same object first
                 fev.free_energy_graph(max_energy_threshold=THR, diagonal=not case['diagonal'])
@@ -424,7 +433,7 @@ def replay(case):
             except Exception:  # noqa: BLE001
                 pass
         if 'start' in case:
-            eval_grid(F, case['diagonal'], res, methods=[case['method']], pairs=[(tuple(case['start']), tuple(case['stop']))], fev=fev)
+            eval_grid(F, case['diagonal'], res, methods=[case['method']], pairs=[(tuple(case['start']), tuple(case['stop']))], fev=fev, pre_low=pl)
         else:
-            eval_grid(F, case['diagonal'], res, fev=fev)
+            eval_grid(F, case['diagonal'], res, fev=fev, pre_low=pl)
     return [{'kind': v['kind'], 'detail': v['detail']} for v in res.viols]
